@@ -48,6 +48,9 @@ type Input struct {
 	MergeH bool     `json:"mergeH"`
 	MergeP bool     `json:"mergeP"`
 	Via    string   `json:"via"` // "api" | "cli"
+	// Pre: (api only) the same FullGraph object is first rendered once with the all-inclusive view, the output is
+	// discarded, then the judged render follows: a render must not depend on an earlier render of the same graph
+	Pre bool `json:"pre"`
 }
 
 type Case struct {
@@ -190,6 +193,9 @@ func runAPI(in Input) Obs {
 		}
 		o.Final = projectGraph(result)
 		o.HasGraph = true
+		if in.Pre {
+			_ = result.ToMapDot(func(string) bool { return true }).String()
+		}
 		text := "di" + result.ToMapDot(nodeFilter).String()
 		o.RawDot = text
 		o.Dot = parseArchDot(text)
